@@ -114,19 +114,21 @@ Theorem start_required fuel vars stmts :
   find_start vars = None -> typecheck fuel (mkResolved vars stmts) <> Ok tt.
 Proof.
   intros H. apply typecheck_notok. intros s W. unfold solve. rewrite H.
-  apply bind_notok_r. intros ? ?. apply notok_fail.
+  apply bind_notok_r. intros ? ?. apply bind_notok_r. intros ? ?. apply notok_fail.
 Qed.
 
 (* a `start` whose type is known not to be a function of no arguments: rejected (the unification with
    `fn -> void` at the end of solve fails) *)
 Lemma start_wrong_type kinds g R stmts v s :
   wf s -> apres R ->
-  (forall u s', iterM (fun st => outer_statement kinds (gfix g) R st ctx_new) stmts s = Ok (u, s') ->
+  (forall s0 u s', wf s0 -> iterM (fun st => outer_statement kinds (gfix g) R st ctx_new) stmts s0 = Ok (u, s') ->
                 forall t, var_ty kinds (v_id v) s' = Ok (t, s') ->
                 exists h, head s' t = Some h /\ is_unknown h = false /\ same_shape h (HFn [] 1%positive PUndefined) = false) ->
   notok (solve kinds (gfix g) R stmts (Some v) s).
 Proof.
   intros W PR H. unfold solve.
+  apply bind_cases; [apply pres_iterM; intros; apply pres_outer_statement; [apply gfix_pres|assumption]|assumption|].
+  intros u0 s0 _ W0 _.
   apply bind_cases; [apply pres_iterM; intros; apply pres_outer_statement; [apply gfix_pres|assumption]|assumption|].
   intros u s1 H1 W1 E1.
   apply bind_cases; [apply pres_push|assumption|]. intros vd s2 H2 W2 E2.
@@ -138,7 +140,7 @@ Proof.
   subst s4.
   assert (Ev1 : var_ty kinds (v_id v) s1 = Ok (t, s1)).
   { unfold var_ty in *. destruct (PositiveMap.find _ kinds); [|discriminate]. injection Ev as <-. reflexivity. }
-  destruct (H _ _ H1 _ Ev1) as (h & Hh & Uh & Sh).
+  destruct (H _ _ _ W0 H1 _ Ev1) as (h & Hh & Uh & Sh).
   assert (E13 : ext s1 s3) by (eapply ext_trans; eassumption).
   destruct E13 as (_ & _ & _ & E4 & _). destruct (E4 _ _ Hh Uh) as (h' & Hh' & Sh').
   unfold or_else_err.
